@@ -46,10 +46,10 @@ def sourceHashes : List (String × String) :=
    ("_delete", "3814292d45cb5cab"),
    ("slice", "943a0297b4418338"),
    ("slice0", "e3dfcf7fb18203eb"),
-   ("call: exec of an ordinary call", "b26edecaafea9f99"),
+   ("call: exec of an ordinary call", "8fac3922f6ab661a"),
    ("genValueRangeArray", "85bb294bc9e6c2d8"),
    ("genValueArray", "7423f6a50d5d826f"),
    ("genDestValue", "6d332c89aa45b5ab"),
-   ("cfg.go: case assignStmt, defineStmt", "a37462e3d79cb0e3")]
+   ("cfg.go: case assignStmt, defineStmt", "0c8b7850eef24aa0")]
 
 end YaegiVerif.Expected.C04
